@@ -11,9 +11,10 @@ NCols == 2
 SamplesOf(srcs) == FoldLeft(LAMBDA acc, s : IF s.ok THEN acc \o s.samples ELSE acc, <<>>, srcs)
 \* A sample of the merged profile is identified by its stack AND by whether it carries the diff-base mark
 \* (-diff_base labels the base samples, so they never merge with source samples of the same stack).
-Tag(samples, b) == [i \in DOMAIN samples |-> [stack |-> samples[i].stack, v |-> samples[i].v, b |-> b]]
-KeysIn(samples) == {[s |-> samples[i].stack, b |-> samples[i].b] : i \in DOMAIN samples}
-ColSum(samples, key, k) == FoldLeft(LAMBDA acc, x : IF x.stack = key.s /\ x.b = key.b THEN acc + x.v[k] ELSE acc, 0, samples)
+\* ... and by its label: t is the value of the sample's label "k" ("" = no label)
+Tag(samples, b) == [i \in DOMAIN samples |-> [stack |-> samples[i].stack, v |-> samples[i].v, b |-> b, t |-> samples[i].t]]
+KeysIn(samples) == {[s |-> samples[i].stack, b |-> samples[i].b, t |-> samples[i].t] : i \in DOMAIN samples}
+ColSum(samples, key, k) == FoldLeft(LAMBDA acc, x : IF x.stack = key.s /\ x.b = key.b /\ x.t = key.t THEN acc + x.v[k] ELSE acc, 0, samples)
 BagOfSamples(samples) == [key \in KeysIn(samples) |-> [k \in 1..NCols |-> ColSum(samples, key, k)]]
 MergedOf(srcs) == BagOfSamples(Tag(SamplesOf(srcs), FALSE))
 \* -base / -diff_base sources are subtracted: their samples count negatively
@@ -30,7 +31,7 @@ Cut(st, drop, keep) == SubSeq(st, CutIdx(st, drop, keep) + 1, Len(st))
 Val(bag, st, k) == IF st \in DOMAIN bag THEN bag[st][k] ELSE 0
 SameBag(b1, b2) == \A st \in (DOMAIN b1) \cup (DOMAIN b2) : \A k \in 1..NCols : Val(b1, st, k) = Val(b2, st, k)
 HasFrame(st, S) == \E i \in DOMAIN st : st[i] \in S
-NoOpts == [focus |-> {}, ignore |-> {}, hide |-> {}, show |-> {}, si |-> NCols, rel |-> FALSE, g |-> "functions"]
+NoOpts == [focus |-> {}, ignore |-> {}, hide |-> {}, show |-> {}, tf |-> {}, ti |-> {}, si |-> NCols, rel |-> FALSE, g |-> "functions"]
 \* granularity: the entry a frame is counted under; at files granularity the functions a and b share a file
 FileOf(f) == CASE f \in {"a", "b"} -> "zz1.x" [] f = "c" -> "zz2.x" [] f = "d" -> "zz3.x" [] OTHER -> "zz4.x"
 Ent(o, f) == IF o.g = "files" THEN FileOf(f) ELSE f
@@ -41,7 +42,9 @@ HasEntry(st, o, e) == \E i \in DOMAIN st : Ent(o, st[i]) = e
 Prof(bag, drop, keep) == [bag |-> bag, drop |-> drop, keep |-> keep]
 NoProf == Prof(<<>>, {}, {})
 V(p, st) == Cut(st.s, p.drop, p.keep)
-Kept(p, o) == {st \in DOMAIN p.bag : (o.focus = {} \/ HasFrame(V(p, st), o.focus)) /\ ~HasFrame(V(p, st), o.ignore)}
+\* tagfocus / tagignore (restricted to the key "k"): on the label value, independently of the name filters
+Kept(p, o) == {st \in DOMAIN p.bag : /\ (o.focus = {} \/ HasFrame(V(p, st), o.focus)) /\ ~HasFrame(V(p, st), o.ignore)
+                                      /\ (o.tf = {} \/ st.t \in o.tf) /\ st.t \notin o.ti}
 SumOver(S, f(_)) == FoldSet(LAMBDA st, acc : acc + f(st), 0, S)
 \* hide removes the frames it names, show keeps only the frames it names; focus and ignore were decided on the
 \* stack before that (Kept); a sample whose frames are all gone is removed with them (Visible)
